@@ -15,11 +15,11 @@ def run(tier):
     rnd = random.Random(common.seed() + 11)
     n = 120 if tier == 'quick' else 2500
     jobs = []
-    for k, j in enumerate(ec.random_jobs(rnd, n, label='stop', gen_kw=dict(p_cmd=0.05))):
+    for k, j in enumerate(ec.random_jobs(rnd, n, label='stop', gen_kw=dict(p_cmd=0.05, p_sub=0.3, p_items=0.1))):
         at = rnd.randint(1, 30)
         st = ['ERROR', 'CANCELLED', 'SUCCESS'][k % 3]
         j['ops'] = [dict(at=at, op='stop', state=st, msg='halt-%d' % k)]
-        if k % 5 == 0:
+        if k % 5 == 0 or (k % 3 == 1 and j['prog'].subs):
             j['ops'].insert(0, dict(at=max(0, at - 2), op='pause'))
         jobs.append(j)
     for j in ec.catalogue_jobs(policies=('random', 'results_first'), seeds=(1,)):
